@@ -49,19 +49,26 @@ func strayElements(meta *gen.Meta) (int, error) {
 			for i := 0; i < bad; i++ {
 				o.Concretes[fmt.Sprintf("nodes.%d", i)] = "Stray"
 			}
-			cases = append(cases, xeng.Case{ID: len(cases), Query: `query Op { nodes { id name } scalar }`, Oracle: o, TimeoutMs: 2500, CheckLeaks: true})
+			for rep := 0; rep < 8; rep++ { // whether the join is passed before the handler ran is up to the scheduler
+				cases = append(cases, xeng.Case{ID: len(cases), Query: `query Op { nodes { id name } scalar }`, Oracle: o, TimeoutMs: 2500, CheckLeaks: true})
+			}
 		}
 		res, err := xeng.RunAll(p.Built.Bin, cases)
 		if err != nil {
 			return n, err
 		}
+		reported := map[int]bool{}
 		for i, r := range res {
 			n++
+			if reported[cases[i].Oracle.Lens["nodes"]] {
+				continue
+			}
 			if r.Hang || r.Crashed || len(r.Leaked) > 0 || len(r.Responses) == 0 {
 				meta.Direct = append(meta.Direct, gen.DirectFinding{Signature: "response-function-does-not-return-after-element-panics",
 					What: fmt.Sprintf("config %s: a list of %d elements whose first %d make their element goroutine panic inside generated code (unexpected type): hang=%v crashed=%v leaked=%v responses=%d",
 						p.Cfg.Name, cases[i].Oracle.Lens["nodes"], cases[i].Oracle.Lens["nodes"]-3, r.Hang, r.Crashed, r.Leaked, len(r.Responses)),
 					Replay: map[string]any{"config": p.Cfg.Name, "query": cases[i].Query, "oracle": cases[i].Oracle}})
+				reported[cases[i].Oracle.Lens["nodes"]] = true
 			}
 		}
 	}
